@@ -206,6 +206,12 @@ impl Property for C18 {
         for s in enumerate(ENC_REPS, maxlen) {
             v.push(name_case("encoding", &s));
         }
+        // names that merely begin with a reserved word or with the namespace-declaration prefix are ordinary names
+        for usage in &USAGES[..4] {
+            for s in ["xmlnsfoo", "xmlns.a", "xmlns-", "xmlns1", "xmlnsx:a", "a:xmlnsx", "xmlx", "xml-a", "xmla", "xmlns\u{e9}", "Xmlns", "xml:a1", "x", "xm", "xmln"] {
+                v.push(name_case(usage, s));
+            }
+        }
         // part 3: every scalar value at the first and at an inner position of a name, in every usage
         for usage in &USAGES[..4] {
             for pos in ["first", "inner"] {
